@@ -169,6 +169,36 @@ example :
       [([1000, 1101], [1000]), ([1100], [1100])] := by
   decide
 
+/-- two sinks, two loggers (logger 0 → sink 0, logger 1 → sink 1), ordering disabled -/
+def c06TwoCfg : Cfg := { c05Cfg true with grace := 0 }
+def c06TwoInit : BSt :=
+  { cfg := c06TwoCfg, now := 1000, sinks := [{ sid := 0 }, { sid := 1 }],
+    lgs := [{ gid := 0, sinks := [0], level := 0 }, { gid := 1, sinks := [1], level := 0 }],
+    names := [(0, 0), (1, 1)] }
+
+/-- thread 1 logs through logger 0, calls `remove_logger(0)` (asynchronous removal: the logger is only marked
+    invalid), then `flush_log()` through logger 1 -/
+def c06Removed : List Op :=
+  [ .front (.tstart 1), .front (.log 1 0 4 10 true), .front (.remove 1 0), .front (.flush 1 1),
+    .poll [], .poll [], .front (.resume 1) ]
+
+/-- writes and flushes of the event log, oldest first: `(0, sink)` = write, `(1, sink)` = flushed -/
+def c06Code : Ev → Option (Nat × Nat)
+  | .write sink _ _ _ _ => some (0, sink)
+  | .flushed sink => some (1, sink)
+  | _ => none
+
+/-- **Limit of the property in the code as it is (F12, on the model).** `C06_flush_step` flushes every *active*
+    sink — the sinks of loggers that are still valid (`is_valid_logger()` filter of `_flush_and_run_active_sinks`,
+    extracted as `flushOnlyValidLoggers`). A statement logged through a logger that was removed (asynchronously)
+    before the flush is written to that logger's sink but the sink is **not flushed** when `flush_log()` returns:
+    here the log is `write sink 0, flushed sink 1`, the flag is raised and the caller released. -/
+theorem C06_removed_logger_sink_not_flushed :
+    (runOps c06TwoInit c06Removed).flags = [0] ∧
+    (runOps c06TwoInit c06Removed).actors.map (fun x => x.pend matches .none) = [true] ∧
+    (runOps c06TwoInit c06Removed).log.reverse.filterMap c06Code = [(0, 0), (1, 1)] := by
+  decide
+
 /-- a dropping queue of 64 bytes: the Flush request (40 bytes) does not fit behind a 47-byte statement -/
 def c06DropCfg : Cfg := { c05Cfg true with dropping := true, qcap := 64, grace := 0 }
 def c06DropInit : BSt := { c05Init true with cfg := c06DropCfg }
